@@ -202,7 +202,13 @@ def words(r, alpha, maxlen, cap_per_len=200):
     return out
 
 
-def cover_word(r, need, limit=30000):
+def cover_word_ex(r, need, limit=30000):
+    """(word or None, exhausted): exhausted = the whole space of (derivative, remaining need) pairs was searched, so None means no word dominates"""
+    res = cover_word(r, need, limit, _flag := [False])
+    return res, _flag[0]
+
+
+def cover_word(r, need, limit=30000, exhausted_flag=None):
     """search for a word of r whose letter counts dominate the multiset `need` (list of names); BFS over
     (derivative, remaining need).  Returns the word or None (None is NOT a proof of deadness)."""
     from collections import deque, Counter
@@ -234,6 +240,8 @@ def cover_word(r, need, limit=30000):
             if (d, nt) not in seen:
                 seen.add((d, nt))
                 q.append((w + (s,), d, nt))
+    if exhausted_flag is not None and not q:
+        exhausted_flag[0] = True
     return None
 
 
